@@ -596,6 +596,16 @@ impl TransactionBuilder {
             }
         }
 
+        // what counts in the end is what the builder really holds: the actual inputs must cover
+        // the outputs plus the minimum fee in lovelace and in every asset
+        let actual_input = self.get_total_input()?;
+        let required = self
+            .get_total_output()?
+            .checked_add(&Value::new(&self.min_fee()?))?;
+        if !(actual_input >= required) {
+            return Err(JsError::from_str("UTxO Balance Insufficient"));
+        }
+
         Ok(())
     }
 
